@@ -298,7 +298,7 @@ def differential(idx, rep, intr):
                     tuples.append({"f": fname, "args": [[a.cls, sorted(a.annots)] for a in tup], "free": ft})
                     if st == "OK":
                         r = win[0][0]
-                        line = min([d.lineno for d in r.node.decorator_list] + [r.node.lineno])
+                        line = min([getattr(d, '_src_line', d.lineno) for d in r.node.decorator_list] + [getattr(r.node, '_src_line', r.node.lineno)])
                         expect.append(("OK", os.path.join(idx.root, r.module.rel), line))
                     else:
                         expect.append((st, None, None))
